@@ -246,7 +246,18 @@ def check_pred(kind, ns, bound, get):
     for i, (n, g, p) in enumerate(zip(ns, exp, per)):
       if kind == 'gcd':
         flag = g != 1
-        fs = sorted({g, n // g}) if flag else []
+        fset = {g, n // g} if flag else set()
+        if flag and g == n:
+          # code after fix D2: a proper split from a single other modulus is recorded too
+          for other in ns:
+            h = math.gcd(n, other)
+            if 1 < h < n:
+              fset |= {h, n // h}
+              break
+          if n > 1 and not any(1 < f < n for f in fset) and not any(m != n and m % n == 0 for m in ns):
+            return ('key %d (n=%x): no proper divisor recorded although n divides no other '
+                    'modulus of the batch (C01 last clause)' % (i, n))
+        fs = sorted(fset)
       else:
         flag = g >= bound
         fs = [g] if flag else []
